@@ -11,8 +11,8 @@
 (*  P  (section PROPERTY) - pure operators, no variables: the reference    *)
 (*     fold Apply / Fold, the set PSucc of replica states the statement    *)
 (*     allows after an input, and PCbsOK, the callbacks it allows.         *)
-(*     P leaves open what the statement leaves open: whether a write made  *)
-(*     through the downlink's own handle is applied optimistically, how    *)
+(*     P leaves open what the statement leaves open: whether writes made   *)
+(*     through the downlink's own handle are applied optimistically, how   *)
 (*     the removals caused by take / drop are reported (one on_remove per  *)
 (*     removed entry, in any order, with any map between "this and all     *)
 (*     earlier reported entries removed" and the final map; or on_clear    *)
@@ -124,11 +124,14 @@ PS(s, d) == [st |-> s, d |-> d]
 
 \* The replica states P allows after input n in state s.  {} = n is outside the link grammar
 \* (linked event* [synced event*] unlinked)* here, P says nothing about what follows.
-PSucc(kind, tou, s, n) ==
+\* opt: the downlink's policy for writes made through its own handle - applied to the replica
+\* at once (optimistically) or only forwarded.  The statement allows either policy; a downlink
+\* keeps to one.
+PSucc(kind, tou, opt, s, n) ==
     IF s.st = "X" THEN {s}                                        \* terminated: nothing happens any more
     ELSE IF n.k \in WriteKinds THEN
-        IF kind = "map" /\ s.st \in {"L", "S"}
-        THEN {s, PS(s.st, Apply(kind, s.d, AsNotif(n)))}          \* optimistic application is allowed, not required
+        IF opt /\ kind = "map" /\ s.st \in {"L", "S"}
+        THEN {PS(s.st, Apply(kind, s.d, AsNotif(n)))}
         ELSE {s}
     ELSE IF n.k = "linked" THEN
         IF s.st = "U" THEN {PS("L", Empty(kind))} ELSE {}
@@ -140,7 +143,7 @@ PSucc(kind, tou, s, n) ==
         IF s.st \in {"L", "S"} THEN {PS(s.st, Apply(kind, s.d, n))} ELSE {}
     ELSE {}
 
-PLegal(kind, tou, s, n) == PSucc(kind, tou, s, n) # {}
+PLegal(kind, tou, s, n) == PSucc(kind, tou, TRUE, s, n) # {}
 
 \* callbacks reporting the entries that a take / drop removed: m before, m2 after
 BulkRemoveOK(m, m2, cbs) ==
@@ -186,8 +189,8 @@ PCbsOK(kind, ewns, s, n, cbs, s2) ==
            [] OTHER -> FALSE
 
 \* one P step: replica in s, input n, observed callbacks and termination flag, replica in s2
-PStep(kind, ewns, tou, s, n, cbs, done, s2) ==
-    /\ s2 \in PSucc(kind, tou, s, n)
+PStep(kind, ewns, tou, opt, s, n, cbs, done, s2) ==
+    /\ s2 \in PSucc(kind, tou, opt, s, n)
     /\ PCbsOK(kind, ewns, s, n, cbs, s2)
     /\ done = (s2.st = "X")
 
@@ -422,8 +425,9 @@ TerminatesOnUnlinked ==
 Input(a) == [f \in DOMAIN a \ {"cf", "legal", "c", "h"} |-> a[f]]
 MRefinesPStep ==
     lastAct'.legal =>
-        /\ PStep(cf.kind, cf.ewns, cf.tou, PS(st, c), Input(lastAct'), lastAct'.c.cbs, lastAct'.c.done, PS(st', c'))
-        /\ PStep(cf.kind, cf.ewns, cf.tou, PS(st, h), Input(lastAct'), lastAct'.h.cbs, lastAct'.h.done, PS(st', h'))
+        \* the client applies its own writes optimistically, the hosted downlink does not
+        /\ PStep(cf.kind, cf.ewns, cf.tou, TRUE, PS(st, c), Input(lastAct'), lastAct'.c.cbs, lastAct'.c.done, PS(st', c'))
+        /\ PStep(cf.kind, cf.ewns, cf.tou, FALSE, PS(st, h), Input(lastAct'), lastAct'.h.cbs, lastAct'.h.done, PS(st', h'))
 MRefinesP == [][MRefinesPStep]_vars
 
 \* P's notion of legality is the link grammar M implements
